@@ -18,11 +18,15 @@ def arg(name, default=None):
     return sys.argv[sys.argv.index(name) + 1] if name in sys.argv else default
 
 
-def work(slot, items, props):
+def prepare(slot):
     wt = "/tmp/scan_wt_%d" % slot
     subprocess.run(["git", "-C", REPO, "worktree", "remove", "--force", wt], stdout=subprocess.DEVNULL, stderr=subprocess.DEVNULL)
     subprocess.run(["git", "-C", REPO, "worktree", "prune"])
     subprocess.check_call(["git", "-C", REPO, "worktree", "add", "-q", "--detach", wt, "HEAD"])
+
+
+def work(slot, items, props):
+    wt = "/tmp/scan_wt_%d" % slot
     out = {}
     env = dict(os.environ, VERIF_REPO=wt, VERIF_BUILD=wt + "_build", VERIF_OUT=wt + "_out")
     try:
@@ -43,7 +47,6 @@ def work(slot, items, props):
             out[sid] = fired
             print(sid, json.dumps(fired)[:400], flush=True)
     finally:
-        subprocess.run(["git", "-C", REPO, "worktree", "remove", "--force", wt])
         subprocess.run(["rm", "-rf", wt + "_build", wt + "_out"])
     return out
 
@@ -71,9 +74,15 @@ def main():
     slots = max(1, min(slots, len(items)))
     chunks = [items[i::slots] for i in range(slots)]
     res = {}
-    with concurrent.futures.ThreadPoolExecutor(slots) as ex:
-        for r in ex.map(lambda a: work(a[0], a[1], props), list(enumerate(chunks))):
-            res.update(r)
+    for i in range(slots):
+        prepare(i)
+    try:
+        with concurrent.futures.ThreadPoolExecutor(slots) as ex:
+            for r in ex.map(lambda a: work(a[0], a[1], props), list(enumerate(chunks))):
+                res.update(r)
+    finally:
+        for i in range(slots):
+            subprocess.run(["git", "-C", REPO, "worktree", "remove", "--force", "/tmp/scan_wt_%d" % i])
     with open("/tmp/scan_%s.json" % kind, "w") as fh:
         json.dump(res, fh, indent=1)
     n = sum(1 for v in res.values() if v)
